@@ -28,12 +28,18 @@ def enc_obls(prop):
                               'output stream == old stream ++ RFC 8949 preferred encoding, return value == its length, at most one flush',
                          bounds={'BUFFER_SIZE': bs, 'argument': 'all values of the type', 'fill': '0..%d' % bs}, functions=ENC_FUNCS))
         for h in ('bytestring', 'textstring'):
-            o.append(Obl('enc_%s_bs%d' % (h, bs), 'enc.cpp', 'h_enc_' + h, unwind=3 * bs + 4, defines=d, tiers=tiers, timeout=1500,
-                         unwindset={r'^__v_mem(cpy|move|set)\.': bs + 1, r'CdnsEncoder16write_(byte|text)string': 5},
-                         desc='string of symbolic length 0..3*BS+2 with symbolic bytes from any I_enc state: head + payload appended in order across flushes',
-                         bounds={'BUFFER_SIZE': bs, 'string length': '0..%d' % (3 * bs + 2)}, functions=ENC_FUNCS))
+            for mult, tt in ((2, ('quick',)), (3, ('thorough',))):
+                t2 = tuple(t for t in tt if t in tiers)
+                if not t2:
+                    continue
+                ms = mult * bs + 2
+                o.append(Obl('enc_%s_bs%d_len%d' % (h, bs, ms), 'enc.cpp', 'h_enc_' + h, unwind=ms + 2, defines=d + ['ENC_MAXSTR=%d' % ms], tiers=t2, timeout=1500,
+                             unwindset={r'^__v_mem(cpy|move|set)\.': bs + 1, r'CdnsEncoder16write_(byte|text)string': mult + 2},
+                             desc='string of symbolic length 0..%d with symbolic bytes from any I_enc state: head + payload appended in order across flushes' % ms,
+                             bounds={'BUFFER_SIZE': bs, 'string length': '0..%d' % ms}, functions=ENC_FUNCS))
         for h in ('bytestring_std', 'textstring_std', 'nullstring', 'rotate'):
             o.append(Obl('enc_%s_bs%d' % (h, bs), 'enc.cpp', 'h_enc_' + h, unwind=max(bs, 8) + 3, defines=d, tiers=tiers,
+                         unwindset={r'^__v_mem(cpy|move|set)\.': max(bs, 8) + 1, r'CdnsEncoder16write_(byte|text)string': 3},
                          desc={'nullstring': 'nullptr string: nothing written, returns 0', 'rotate': 'rotate_output<int|string>: all buffered bytes reach the old sink before the writer rotates'}.get(h, 'std::string overload forwards data()/size() unchanged'),
                          bounds={'BUFFER_SIZE': bs, 'std::string length': '0..8 (model capacity)'}, functions=ENC_FUNCS))
     return o
@@ -120,4 +126,24 @@ PROPS['C07'] = {
     'explanation': 'Every read operation is run once on arbitrary remaining input against a reference RFC 8949 parser: all head widths (preferred or not), '
                    'all window offsets; strings definite and chunked; skip_item per item kind with the recursive call replaced by its contract.',
     'assumptions': DEC_ASSUME,
+}
+
+
+# ------------------------------------------------------------------------------------------ U3 timestamp (SMT route)
+TS_FUNCS = ['Timestamp::get_time_offset', 'Timestamp::add_time_offset', 'Timestamp::operator<', 'Timestamp::operator<=']
+TS_B = {'secs, ticks, offset': 'all 64-bit values', 'ticks_per_second': '[1,1e9] (T1), all 64-bit values (T2)', 'instants': '< 2^63 (representable range)'}
+PROPS['C17'] = {
+    'translation_validation': False,
+    'obligations': [
+        Obl('ts_T1_exact', 'ts.cpp', 'T1_exact', kind='smt', desc='get_time_offset == exact signed tick difference for all representable instants, rate in [1,1e9]; never throws; no UB', bounds=TS_B, functions=TS_FUNCS),
+        Obl('ts_T1_inverse', 'ts.cpp', 'T1_inverse', kind='smt', desc='reference.add_time_offset(exact offset) reproduces the original instant in normalised form', bounds=TS_B, functions=TS_FUNCS),
+        Obl('ts_T2_add', 'ts.cpp', 'T2_add', kind='smt', desc='add_time_offset for ALL int64 offsets (incl. INT64_MIN) and all rates: refuses rate 0 and results before the epoch leaving the object unchanged, otherwise normalised sum; no UB', bounds=TS_B, functions=TS_FUNCS),
+        Obl('ts_T3_order', 'ts.cpp', 'T3_order', kind='smt', desc='operator< / operator<= are the strict / non-strict lexicographic order; lemma: lexicographic == by instant for normalised stamps', bounds=TS_B, functions=TS_FUNCS),
+    ],
+    'explanation': 'The arithmetic kernels of timestamp.cpp are loop-free: tools/ir2smt.py executes their IR path by path into integer terms with explicit mod 2^64 wrap '
+                   '(signed views, nsw/nuw and division by zero as UB predicates) and the negated claim is discharged per path by z3 4.8.12, cvc5 1.0 and z3 5.1 '
+                   '(unsat from the primary and at least one more, no sat). Verdicts hold for all 64-bit inputs inside the stated preconditions (no bound on values). '
+                   'The term encoding is validated on every run against a native build of the same functions on the repo\'s test values and seeded random vectors. '
+                   'T4 (earliest-time bookkeeping in CdnsBlock) is a CBMC obligation (block harness).',
+    'assumptions': ['QF_NIA solvers z3/cvc5 (agreement of at least two required)', 'IR produced with clang -O1 -disable-llvm-passes + mem2reg/sroa/simplifycfg/inline only (no UB-exploiting passes), so nsw flags are those of the source'],
 }
